@@ -28,35 +28,53 @@ theorem C04_timeout_after_deadline (s s' : St) (t : Nat) (h : stepCore s (.wakeT
       · exact absurd hp (by simp)
       · next hlt => exact ⟨d, rfl, by omega, by simpa using hst⟩
 
-/-- `step` = `stepCore` on the state with a completed hand-off -/
-theorem step_ok (s s' : St) (e : Ev) (h : step s e = .ok s') :
-    ∃ s0, s0.th = s.th ∧ s0.now = s.now ∧ s0.tids = s.tids ∧ s0.queue = s.queue ∧ s0.mutex = s.mutex ∧
-      s0.sem = s.sem ∧ s0.deferred = s.deferred ∧ pre s0 e = none ∧ s' = eff s0 e := by
-  unfold step at h
-  split at h
-  · next h' t x y hh =>
-    split at h
-    · obtain ⟨h1, h2⟩ := stepCore_ok _ _ _ h
-      exact ⟨{ s with handoff := none }, rfl, rfl, rfl, rfl, rfl, rfl, rfl, h1, h2⟩
-    · exact absurd h (by simp [fail])
-  · exact absurd h (by simp [fail])
-  · obtain ⟨h1, h2⟩ := stepCore_ok _ _ _ h
-    exact ⟨s, rfl, rfl, rfl, rfl, rfl, rfl, rfl, h1, h2⟩
-
 /-- the state an accepted event is evaluated in: `s` with the hand-off marker cleared -/
 def base (s : St) : St := { s with handoff := none }
 
 theorem base_eq (s : St) (h : s.handoff = none) : base s = s := by
   cases s; simp only [base] at *; subst h; rfl
 
-theorem step_ok' (s s' : St) (e : Ev) (h : step s e = .ok s') : pre (base s) e = none ∧ s' = eff (base s) e := by
-  unfold step at h
+theorem stepH_ok (s s' : St) (e : Ev) (h : step.stepH s e = .ok s') : pre (base s) e = none ∧ s' = eff (base s) e := by
+  unfold step.stepH at h
   split at h
   · split at h
     · exact stepCore_ok _ _ _ h
     · exact absurd h (by simp [fail])
   · exact absurd h (by simp [fail])
   · next hn => rw [base_eq s hn]; exact stepCore_ok _ _ _ h
+
+/-- every accepted event passed its guard and had its effect, on `base s` -/
+theorem step_ok' (s s' : St) (e : Ev) (h : step s e = .ok s') : pre (base s) e = none ∧ s' = eff (base s) e := by
+  unfold step at h
+  split at h
+  · split at h
+    · exact stepH_ok _ _ _ h
+    · exact absurd h (by simp [fail])
+  · exact absurd h (by simp [fail])
+  · exact stepH_ok _ _ _ h
+
+/-- `step` = `stepCore` on the state with a completed hand-off -/
+theorem step_ok (s s' : St) (e : Ev) (h : step s e = .ok s') :
+    ∃ s0, s0.th = s.th ∧ s0.now = s.now ∧ s0.tids = s.tids ∧ s0.queue = s.queue ∧ s0.mutex = s.mutex ∧
+      s0.sem = s.sem ∧ s0.deferred = s.deferred ∧ pre s0 e = none ∧ s' = eff s0 e := by
+  obtain ⟨h1, h2⟩ := step_ok' s s' e h
+  exact ⟨base s, rfl, rfl, rfl, rfl, rfl, rfl, rfl, h1, h2⟩
+
+/-- the two shapes of the effect of an interrupt wake-up: the woken thread leaves its queue; if the
+    waker is inside `notify` on that queue its wake counter is bumped as well -/
+def wokenState (s : St) (t : Nat) (e : Int) : St :=
+  dequeue (setTh s t { s.th t with st := .run, q := none, err := e, intrSince := (s.th t).intrSince ++ [e] }) t (s.th t).q
+
+theorem effWakeIntr_form (s : St) (t : Nat) (e : Int) (b : Nat) :
+    effWakeIntr s t e b = wokenState s t e ∨
+    effWakeIntr s t e b = setTh (wokenState s t e) b
+      { (wokenState s t e).th b with nWoken := ((wokenState s t e).th b).nWoken + 1 } := by
+  unfold effWakeIntr wokenState
+  split
+  · split
+    · exact Or.inl rfl
+    · exact Or.inr rfl
+  · exact Or.inl rfl
 
 /-! ### the pending wake-up reason always comes from an interrupt inside the current sleep/yield -/
 
@@ -97,9 +115,12 @@ theorem eff_inv (s : St) (e : Ev) (h : InvErr s) : InvErr (eff s e) := by
     have h1 : InvErr (setTh s t { s.th t with st := .run, q := none }) := inv_setTh s t _ h (fun hx => h t hx)
     exact inv_of_th _ _ h1 (by simp only [effWakeTimeout, dequeue_th])
   case wakeIntr t e by_ =>
-    have h1 : InvErr (setTh s t { s.th t with st := .run, q := none, err := e, intrSince := (s.th t).intrSince ++ [e] }) :=
-      inv_setTh s t _ h (fun _ => by simp)
-    exact inv_of_th _ _ h1 (by simp only [effWakeIntr, dequeue_th])
+    have h1 : InvErr (wokenState s t e) :=
+      inv_of_th _ _ (inv_setTh s t { s.th t with st := .run, q := none, err := e, intrSince := (s.th t).intrSince ++ [e] } h
+        (fun _ => by simp)) (by simp only [wokenState, dequeue_th])
+    rcases effWakeIntr_form s t e by_ with hf | hf <;> rw [hf]
+    · exact h1
+    · exact inv_setTh _ _ _ h1 (fun hx => h1 by_ hx)
   case intrNoSleep t stored e by_ =>
     unfold effIntrNoSleep
     split
@@ -126,7 +147,7 @@ theorem eff_inv (s : St) (e : Ev) (h : InvErr s) : InvErr (eff s e) := by
   case semResume sm d t => exact h
   case semPass sm c => exact h
   case callNotify t c => exact h
-  case retNotify t c r a => exact h
+  case retNotify t c r a => exact inv_setTh _ _ _ h (fun hx => h t hx)
   case tick n => exact h
   case quiescent => exact h
 
@@ -213,7 +234,14 @@ theorem C04_reason_only_from_interrupt (s s' : St) (ev : Ev) (t : Nat) (h : step
   case wakeIntr t' e b =>
     by_cases htt : t' = t
     · subst htt; exact Or.inl ⟨e, b, rfl⟩
-    · exfalso; apply h1; simp only [effWakeIntr, dequeue_th, setTh, upd]; rw [if_neg (Ne.symm htt)]; exact h0
+    · exfalso; apply h1
+      have hw : ((wokenState s0 t' e).th t).err = 0 := by
+        simp only [wokenState, dequeue_th, setTh, upd]; rw [if_neg (Ne.symm htt)]; exact h0
+      rcases effWakeIntr_form s0 t' e b with hf | hf <;> rw [hf]
+      · exact hw
+      · simp only [setTh, upd]; split
+        · next hh => subst hh; exact hw
+        · exact hw
   case intrNoSleep t' stored e b =>
     by_cases htt : t' = t
     · subst htt
